@@ -9,6 +9,7 @@ package main
 
 import (
 	"bufio"
+	"bytes"
 	"encoding/json"
 	"flag"
 	"fmt"
@@ -18,6 +19,9 @@ import (
 	"os"
 	"path/filepath"
 	"sort"
+	"sync"
+	"sync/atomic"
+	"time"
 
 	bmp "github.com/pinealctx/neptune/bitmap1024"
 
@@ -131,22 +135,74 @@ func (b *block) snap() snap {
 }
 
 type runner struct {
-	w    *tr.W
-	rng  *rand.Rand
-	cur  bmp.Bit1024
-	blk  []*block
-	dead bool
+	w       *tr.W
+	rng     *rand.Rand
+	cur     bmp.Bit1024
+	blk     []*block
+	dead    bool
+	late    bool
+	pending []pend
+	pool    []byte // one input buffer reused for every byte string, like a driver reading into its buffer
+}
+
+// lazy is a reply that is rendered later from storage kept as the library returned it.
+type lazy func() interface{}
+
+type pend struct {
+	ev     tr.E
+	render lazy
+}
+
+const hangLimit = 40 * time.Second
+
+func lzI64(s []int64) lazy  { return func() interface{} { return numsI64(s) } }
+func lzU32(s []uint32) lazy { return func() interface{} { return numsU32(s) } }
+
+func (r *runner) flush() {
+	for _, p := range r.pending {
+		if p.render != nil {
+			p.ev["r"] = p.render()
+		}
+		r.w.Emit(p.ev)
+	}
+	r.pending = r.pending[:0]
+}
+
+// put: in `late` traces (about half) the events are held back and every aggregate a call returned
+// (Marshal's bytes, the list forms' slices, the caller slice of an iterator) is rendered from the
+// very storage the library handed out when the trace is over; the others render at once.
+func (r *runner) put(ev tr.E, render lazy) {
+	if r.late {
+		r.pending = append(r.pending, pend{ev, render})
+		return
+	}
+	if render != nil {
+		ev["r"] = render()
+	}
+	r.w.Emit(ev)
 }
 
 func (r *runner) reset(nh int, src string) {
+	r.flush()
 	r.cur = bmp.NewBit1024()
 	r.blk = make([]*block, nh)
 	r.dead = false
-	r.w.Emit(tr.E{"ev": "reset", "nh": nh, "src": src})
+	r.late = r.rng.Intn(2) == 0
+	r.w.Emit(tr.E{"ev": "reset", "nh": nh, "src": src, "late": r.late})
 }
 
-// emit runs f (one call into the library); discard tells that the bitmap `cur` is dropped
-// after a failed Unmarshal (its content is unspecified then).
+// hung: the code under test spins inside one call: logged as an event no action explains; the
+// process ends normally (the goroutine cannot be stopped).
+func (r *runner) hung(rec tr.E) {
+	r.flush()
+	r.w.Emit(tr.E{"ev": "hang", "a": rec, "msg": fmt.Sprintf("call did not return within %v", hangLimit)})
+	r.w.Close()
+	fmt.Printf("events=%d (ended by a hanging call)\n", r.w.N())
+	os.Exit(0)
+}
+
+// emit runs f (one call into the library, on its own goroutine, with a watchdog); discard tells that
+// the bitmap `cur` is dropped after a failed Unmarshal (its content is unspecified then).
 func (r *runner) emit(rec tr.E, f func() (reply interface{}, discard bool)) {
 	if r.dead {
 		return
@@ -159,7 +215,9 @@ func (r *runner) emit(rec tr.E, f func() (reply interface{}, discard bool)) {
 	var reply interface{}
 	var discard bool
 	var pmsg string
-	func() {
+	done := make(chan struct{})
+	go func() {
+		defer close(done)
 		defer func() {
 			if p := recover(); p != nil {
 				pmsg = fmt.Sprintf("panic: %v", p)
@@ -167,7 +225,13 @@ func (r *runner) emit(rec tr.E, f func() (reply interface{}, discard bool)) {
 		}()
 		reply, discard = f()
 	}()
+	select {
+	case <-done:
+	case <-time.After(hangLimit):
+		r.hung(rec)
+	}
 	if pmsg != "" {
+		r.flush()
 		r.w.Emit(tr.E{"ev": "panic", "a": rec, "msg": pmsg})
 		r.dead = true
 		return
@@ -182,14 +246,23 @@ func (r *runner) emit(rec tr.E, f func() (reply interface{}, discard bool)) {
 	for i, b := range r.blk {
 		now := b.snap()
 		if now != before[i] {
-			if now.ok {
-				obsBlk = append(obsBlk, tr.E{"h": i + 1, "ok": true, "kind": now.kind, "start": startDigits(now.start), "ms": membersOf(b.bm())})
-			} else {
-				obsBlk = append(obsBlk, tr.E{"h": i + 1, "ok": false, "kind": "", "start": []int{}, "ms": []int{}})
-			}
+			obsBlk = append(obsBlk, blkObs(i+1, b))
 		}
 	}
-	r.w.Emit(tr.E{"ev": "call", "a": rec, "r": reply, "obs": tr.E{"cur": obsCur, "blk": obsBlk}})
+	ev := tr.E{"ev": "call", "a": rec, "obs": tr.E{"cur": obsCur, "blk": obsBlk}}
+	if lz, isLazy := reply.(lazy); isLazy {
+		r.put(ev, lz)
+		return
+	}
+	ev["r"] = reply
+	r.put(ev, nil)
+}
+
+func blkObs(h int, b *block) tr.E {
+	if b.ok() {
+		return tr.E{"h": h, "ok": true, "kind": b.kind, "start": startDigits(b.start()), "ms": membersOf(b.bm())}
+	}
+	return tr.E{"h": h, "ok": false, "kind": "", "start": []int{}, "ms": []int{}}
 }
 
 // ---------------------------------------------------------------- codec actions
@@ -207,15 +280,20 @@ func (r *runner) fresh() {
 func (r *runner) marshal() []byte {
 	var out []byte
 	r.emit(tr.E{"op": "marshal"}, func() (interface{}, bool) {
-		out = r.cur.Marshal()
-		return tr.Ints(out), false
+		out = r.cur.Marshal() // kept as returned
+		return lazy(func() interface{} { return tr.Ints(out) }), false
 	})
 	return out
 }
 
-// unmarshal decodes into a fresh bitmap through one of the three entry points.
-func (r *runner) unmarshal(buf []byte, via string) {
-	r.emit(tr.E{"op": "unmarshal", "bytes": tr.Ints(buf), "via": via}, func() (interface{}, bool) {
+// unmarshal decodes into a fresh bitmap through one of the three entry points.  The bytes are
+// logged from a private copy taken before the call; `inmut` says the callee left the caller's buffer
+// alone.  With scribble the caller overwrites its buffer right after the call, as a driver that
+// reuses its read buffer does, before the decoded bitmap is looked at.
+func (r *runner) unmarshal(buf []byte, via string, scribble bool) {
+	priv := append([]byte{}, buf...)
+	rec := tr.E{"op": "unmarshal", "bytes": tr.Ints(priv), "via": via}
+	r.emit(rec, func() (interface{}, bool) {
 		var err error
 		switch via {
 		case "bit1024":
@@ -237,10 +315,65 @@ func (r *runner) unmarshal(buf []byte, via string) {
 		default:
 			tr.Fatal("via %q", via)
 		}
+		rec["inmut"] = bytes.Equal(buf, priv)
+		if scribble {
+			for i := range buf {
+				buf[i] ^= 0xa5
+			}
+		}
 		if err != nil {
 			return tr.E{"err": true, "ms": []int{}}, true
 		}
 		return tr.E{"err": false, "ms": membersOf(r.cur)}, false
+	})
+}
+
+// bload: the harness builds the block struct itself (public fields), no library call.
+func (r *runner) bload(h int, kind string, start uint32, ms []int) {
+	if ms == nil {
+		ms = []int{}
+	}
+	r.emit(tr.E{"op": "bload", "h": h, "kind": kind, "start": startDigits(start), "ms": ms}, func() (interface{}, bool) {
+		if kind == "big" {
+			r.blk[h-1] = &block{kind: kind, big: &bmp.BigU32{Start: start, B1024: fromMembers(ms)}}
+		} else {
+			r.blk[h-1] = &block{kind: kind, tip: &bmp.U32BitTip{Start: start, B1024: fromMembers(ms)}}
+		}
+		return 0, false
+	})
+}
+
+// bnew0: the parameterless constructors (empty block number 0), to be filled with Set calls.
+func (r *runner) bnew0(h int, kind string) {
+	r.emit(tr.E{"op": "bnew0", "h": h, "kind": kind}, func() (interface{}, bool) {
+		if kind == "big" {
+			r.blk[h-1] = &block{kind: kind, big: bmp.NewBigU32()}
+		} else {
+			r.blk[h-1] = &block{kind: kind, tip: bmp.NewU32BitTip()}
+		}
+		return 0, false
+	})
+}
+
+// bdata: New...FromData(start, bytes) with every admissible block number, then used as a block.
+func (r *runner) bdata(h int, kind string, start uint32, buf []byte) {
+	priv := append([]byte{}, buf...)
+	rec := tr.E{"op": "bdata", "h": h, "kind": kind, "start": startDigits(start), "bytes": tr.Ints(priv)}
+	r.emit(rec, func() (interface{}, bool) {
+		var err error
+		nb := &block{kind: kind}
+		if kind == "big" {
+			nb.big, err = bmp.NewBigU32FromData(start, buf)
+		} else {
+			nb.tip, err = bmp.NewU32BitTipFromData(start, buf)
+		}
+		rec["inmut"] = bytes.Equal(buf, priv)
+		if err != nil {
+			r.blk[h-1] = nil
+			return true, false
+		}
+		r.blk[h-1] = nb
+		return false, false
 	})
 }
 
@@ -320,14 +453,14 @@ func (r *runner) bgetn(h int, dir string, n int) {
 	r.emit(tr.E{"op": "bgetn", "h": h, "dir": dir, "n": n}, func() (interface{}, bool) {
 		if b.big != nil {
 			if dir == "r" {
-				return numsI64(b.big.RGetNAsI64(n)), false
+				return lzI64(b.big.RGetNAsI64(n)), false
 			}
-			return numsI64(b.big.GetNAsI64(n)), false
+			return lzI64(b.big.GetNAsI64(n)), false
 		}
 		if dir == "r" {
-			return numsU32(b.tip.RGetNAsU32(n)), false
+			return lzU32(b.tip.RGetNAsU32(n)), false
 		}
-		return numsU32(b.tip.GetNAsU32(n)), false
+		return lzU32(b.tip.GetNAsU32(n)), false
 	})
 }
 
@@ -373,7 +506,7 @@ func (r *runner) biter(h int, dir string, n, pos int) {
 			} else {
 				c = b.big.IterAsI64(s, pos, n)
 			}
-			return tr.E{"c": c, "out": numsI64(s)}, false
+			return lazy(func() interface{} { return tr.E{"c": c, "out": numsI64(s)} }), false
 		}
 		s := make([]uint32, L)
 		for i := range s {
@@ -385,7 +518,7 @@ func (r *runner) biter(h int, dir string, n, pos int) {
 		} else {
 			c = b.tip.IterAsU32(s, pos, n)
 		}
-		return tr.E{"c": c, "out": numsU32(s)}, false
+		return lazy(func() interface{} { return tr.E{"c": c, "out": numsU32(s)} }), false
 	})
 }
 
@@ -408,18 +541,18 @@ func (r *runner) lgetn(kind string, hs []int, dir string, n int) {
 				l = append(l, r.blk[h-1].big)
 			}
 			if dir == "r" {
-				return numsI64(l.RGetNAsI64(n)), false
+				return lzI64(l.RGetNAsI64(n)), false
 			}
-			return numsI64(l.GetNAsI64(n)), false
+			return lzI64(l.GetNAsI64(n)), false
 		}
 		var l bmp.U32BitTips
 		for _, h := range hs {
 			l = append(l, r.blk[h-1].tip)
 		}
 		if dir == "r" {
-			return numsU32(l.RGetNAsU32(n)), false
+			return lzU32(l.RGetNAsU32(n)), false
 		}
-		return numsU32(l.GetNAsU32(n)), false
+		return lzU32(l.GetNAsU32(n)), false
 	})
 }
 
@@ -436,6 +569,7 @@ type pact struct {
 	Hs    []int  `json:"hs"`
 	Ms    []int  `json:"ms"`
 	Bytes []int  `json:"bytes"`
+	Start []int  `json:"start"`
 	Nh    int    `json:"nh"`
 }
 
@@ -480,7 +614,19 @@ func (r *runner) runPlan(p []pact, i int) {
 			for j, x := range a.Bytes {
 				buf[j] = byte(x)
 			}
-			r.unmarshal(buf, vias[(i+k)%3])
+			r.unmarshal(buf, vias[(i+k)%3], false)
+		case "bnew0":
+			r.bnew0(a.H, a.Kind)
+		case "bdata":
+			buf := make([]byte, len(a.Bytes))
+			for j, x := range a.Bytes {
+				buf[j] = byte(x)
+			}
+			var st uint64
+			for j := len(a.Start) - 1; j >= 0; j-- {
+				st = st<<10 | uint64(a.Start[j])
+			}
+			r.bdata(a.H, a.Kind, uint32(st), buf)
 		case "new":
 			r.newBlock(a.H, a.Kind, a.V.i64())
 		case "bset":
@@ -539,11 +685,31 @@ func (r *runner) roundTrips(extra int) {
 				ms[j] = off + j
 			}
 		}
-		r.reset(1, "roundtrip")
+		r.reset(2, "roundtrip")
 		r.load(ms)
 		buf := r.marshal()
+		if i%3 == 0 {
+			// a second Marshal of another bitmap before the first result is used: the first
+			// result must still be the first bitmap's bytes
+			r.load(r.randMembers([]int{1, 5, 63, 64, 200}[r.rng.Intn(5)]))
+			r.marshal()
+		}
 		r.fresh()
-		r.unmarshal(buf, vias[i%3])
+		r.unmarshal(buf, vias[i%3], false)
+		// the same source decoded a second time, through another entry point
+		r.fresh()
+		r.unmarshal(buf, vias[(i+1)%3], false)
+		// and as the content of a block with an extreme block number, iterated back
+		kind := []string{"big", "tip"}[i%2]
+		starts := []uint32{0, 1, 1<<22 - 1, 1 << 22, 1<<32 - 2, 12345678}
+		if kind == "tip" {
+			starts = []uint32{0, 1, 1<<22 - 1, 1 << 21, 4095}
+		}
+		r.bdata(1, kind, starts[r.rng.Intn(len(starts))], buf)
+		if r.blk[0].ok() {
+			r.bgetn(1, []string{"f", "r"}[r.rng.Intn(2)], []int{1, 3, c, c + 1}[r.rng.Intn(4)])
+			r.biter(1, []string{"f", "r"}[r.rng.Intn(2)], []int{2, c, math.MaxInt}[r.rng.Intn(3)], []int{0, 1, 3}[r.rng.Intn(3)])
+		}
 	}
 }
 
@@ -552,9 +718,15 @@ func le16(v int) []byte { return []byte{byte(v), byte(v >> 8)} }
 func (r *runner) arbitraryBytes(per int) {
 	vias := []string{"bit1024", "bigdata", "tipdata"}
 	k := 0
-	one := func(buf []byte) {
+	if r.pool == nil {
+		r.pool = make([]byte, 70000)
+	}
+	one := func(src []byte) {
+		// the caller's buffer is one reused region, overwritten right after the call
+		buf := r.pool[:len(src)]
+		copy(buf, src)
 		r.reset(1, "bytes")
-		r.unmarshal(buf, vias[k%3])
+		r.unmarshal(buf, vias[k%3], true)
 		k++
 	}
 	bad := []int{1024, 1025, 2047, 4096, 32767, 32768, 40000, 65535, 64512}
@@ -644,6 +816,15 @@ func (r *runner) randTip() int64 {
 // one block scenario: build from v, read back, extend, read, reverse, lists
 func (r *runner) blockScenario(kind string, v int64, src string) {
 	r.reset(3, src)
+	if r.rng.Intn(4) == 0 {
+		// construct empty, then fill: block number 0 accepts 0..1023 only
+		r.bnew0(3, kind)
+		r.bgetn(3, "f", 1)
+		for _, x := range []int64{int64(r.rng.Intn(1024)), 1023, 1024, 0, 1<<32 - 1, int64(r.rng.Intn(1024))}[:3+r.rng.Intn(4)] {
+			r.bset(3, x)
+		}
+		r.bgetn(3, []string{"f", "r"}[r.rng.Intn(2)], 5)
+	}
 	r.newBlock(1, kind, v)
 	if !r.blk[0].ok() {
 		return
@@ -735,6 +916,223 @@ func (r *runner) blockScenario(kind string, v int64, src string) {
 	}
 }
 
+// encode is the harness's own Marshal (canonical form), so that a cold round needs no library call
+// to get its input.
+func encode(ms []int) []byte {
+	if len(ms) == 0 {
+		return []byte{}
+	}
+	if len(ms) < 64 {
+		out := make([]byte, 0, 2*len(ms))
+		for _, m := range ms {
+			out = append(out, le16(m)...)
+		}
+		return out
+	}
+	out := make([]byte, 128)
+	for _, m := range ms {
+		out[m/8] |= 1 << uint(m%8)
+	}
+	return out
+}
+
+// raceRound: one bitmap, its encoding and two blocks that nobody writes are used by G goroutines
+// released together by a spin barrier: Marshal of the shared bitmap, Unmarshal of the shared bytes
+// into a bitmap of the goroutine's own, iteration / list forms over the shared blocks.  Values that
+// are only read are safe to share, so every reply must be what the call gives alone; results are kept
+// as returned and rendered after the round.  With -cold this is the first use of the package in the
+// process (the inputs are built by the harness without library calls).
+func (r *runner) raceRound(src string, G, per int) {
+	r.reset(2, src)
+	r.late = true // everything of the round is rendered when it is over
+	kind := []string{"big", "tip"}[r.rng.Intn(2)]
+	starts := []uint32{0, 1 << 22, 1<<32 - 2, 77}
+	if kind == "tip" {
+		starts = []uint32{0, 1<<22 - 1, 5, 77}
+	}
+	ms := r.randMembers([]int{0, 1, 9, 63, 64, 65, 300, 1024}[r.rng.Intn(8)])
+	st1 := starts[r.rng.Intn(len(starts))]
+	st2 := starts[r.rng.Intn(len(starts))]
+	m1 := r.randMembers([]int{1, 2, 10, 70, 1000}[r.rng.Intn(5)])
+	m2 := r.randMembers([]int{1, 3, 64, 500}[r.rng.Intn(4)])
+	r.load(ms)
+	r.bload(1, kind, st1, m1)
+	r.bload(2, kind, st2, m2)
+	if r.dead {
+		return
+	}
+	shared := encode(ms)
+	sharedCopy := append([]byte{}, shared...)
+	curW, curN := snapBM(r.cur)
+	b1, b2 := r.blk[0].snap(), r.blk[1].snap()
+	type res struct {
+		rec    tr.E
+		render lazy
+		pmsg   string
+		own    bmp.Bit1024 // unmarshal: the goroutine's own bitmap
+		err    bool
+	}
+	out := make([][]res, G)
+	var gate int32
+	var ready, wg sync.WaitGroup
+	for g := 0; g < G; g++ {
+		ready.Add(1)
+		wg.Add(1)
+		go func(g int, rng *rand.Rand) {
+			defer wg.Done()
+			var cur tr.E
+			defer func() {
+				if p := recover(); p != nil {
+					out[g] = append(out[g], res{rec: cur, pmsg: fmt.Sprintf("panic: %v", p)})
+				}
+			}()
+			ready.Done()
+			for atomic.LoadInt32(&gate) == 0 {
+			}
+			for k := 0; k < per; k++ {
+				h := rng.Intn(2) + 1
+				b := r.blk[h-1]
+				l := len([][]int{m1, m2}[h-1])
+				dir := []string{"f", "r"}[rng.Intn(2)]
+				switch x := rng.Intn(10); {
+				case x < 2:
+					cur = tr.E{"op": "marshal", "gor": g}
+					o := r.cur.Marshal()
+					out[g] = append(out[g], res{rec: cur, render: func() interface{} { return tr.Ints(o) }})
+				case x < 4:
+					via := []string{"bit1024", "bigdata", "tipdata"}[rng.Intn(3)]
+					cur = tr.E{"op": "unmarshal", "bytes": tr.Ints(sharedCopy), "via": via, "gor": g}
+					var own bmp.Bit1024
+					var err error
+					switch via {
+					case "bit1024":
+						own = bmp.NewBit1024()
+						err = own.Unmarshal(shared)
+					case "bigdata":
+						var x *bmp.BigU32
+						if x, err = bmp.NewBigU32FromData(3, shared); err == nil {
+							own = x.B1024
+						}
+					default:
+						var x *bmp.U32BitTip
+						if x, err = bmp.NewU32BitTipFromData(3, shared); err == nil {
+							own = x.B1024
+						}
+					}
+					out[g] = append(out[g], res{rec: cur, own: own, err: err != nil})
+				case x < 7:
+					n := []int{0, 1, l - 1, l, l + 1, 2000}[rng.Intn(6)]
+					if n < 0 {
+						n = 0
+					}
+					cur = tr.E{"op": "bgetn", "h": h, "dir": dir, "n": n, "gor": g}
+					var lz lazy
+					switch {
+					case b.big != nil && dir == "r":
+						lz = lzI64(b.big.RGetNAsI64(n))
+					case b.big != nil:
+						lz = lzI64(b.big.GetNAsI64(n))
+					case dir == "r":
+						lz = lzU32(b.tip.RGetNAsU32(n))
+					default:
+						lz = lzU32(b.tip.GetNAsU32(n))
+					}
+					out[g] = append(out[g], res{rec: cur, render: lz})
+				default:
+					hs := [][]int{{1, 2}, {2, 1}, {1}, {2, 2, 1}}[rng.Intn(4)]
+					n := []int{0, 1, l, len(m1) + len(m2), len(m1) + len(m2) + 3, 3000}[rng.Intn(6)]
+					cur = tr.E{"op": "lgetn", "kind": kind, "hs": hs, "dir": dir, "n": n, "gor": g}
+					var lz lazy
+					if kind == "big" {
+						var lst bmp.BigU32s
+						for _, x := range hs {
+							lst = append(lst, r.blk[x-1].big)
+						}
+						if dir == "r" {
+							lz = lzI64(lst.RGetNAsI64(n))
+						} else {
+							lz = lzI64(lst.GetNAsI64(n))
+						}
+					} else {
+						var lst bmp.U32BitTips
+						for _, x := range hs {
+							lst = append(lst, r.blk[x-1].tip)
+						}
+						if dir == "r" {
+							lz = lzU32(lst.RGetNAsU32(n))
+						} else {
+							lz = lzU32(lst.GetNAsU32(n))
+						}
+					}
+					out[g] = append(out[g], res{rec: cur, render: lz})
+				}
+			}
+		}(g, rand.New(rand.NewSource(r.rng.Int63())))
+	}
+	ready.Wait()
+	atomic.StoreInt32(&gate, 1)
+	done := make(chan struct{})
+	go func() { wg.Wait(); close(done) }()
+	select {
+	case <-done:
+	case <-time.After(hangLimit):
+		r.hung(tr.E{"op": "race", "src": src})
+	}
+	// nobody wrote: the shared values must be what they were
+	obsCur := make([][]int, 0, 1)
+	if w, n := snapBM(r.cur); w != curW || n != curN {
+		obsCur = append(obsCur, membersOf(r.cur))
+	}
+	obsBlk := make([]tr.E, 0, 1)
+	if r.blk[0].snap() != b1 {
+		obsBlk = append(obsBlk, blkObs(1, r.blk[0]))
+	}
+	if r.blk[1].snap() != b2 {
+		obsBlk = append(obsBlk, blkObs(2, r.blk[1]))
+	}
+	quiet := func() tr.E { return tr.E{"cur": [][]int{}, "blk": []tr.E{}} }
+	var panicked *res
+	var reads, decs []*res
+	for g := range out {
+		for i := range out[g] {
+			x := &out[g][i]
+			switch {
+			case x.pmsg != "":
+				if panicked == nil {
+					panicked = x
+				}
+			case x.rec["op"] == "unmarshal":
+				decs = append(decs, x)
+			default:
+				reads = append(reads, x)
+			}
+		}
+	}
+	for i, x := range reads {
+		obs := quiet()
+		if i == len(reads)-1 {
+			obs = tr.E{"cur": obsCur, "blk": obsBlk}
+		}
+		r.put(tr.E{"ev": "call", "a": x.rec, "obs": obs}, x.render)
+	}
+	// the decodings: each went into a bitmap of its own, which becomes `the bitmap` when it is logged
+	for _, x := range decs {
+		x.rec["inmut"] = bytes.Equal(shared, sharedCopy)
+		r.put(tr.E{"ev": "call", "a": tr.E{"op": "fresh"}, "r": 0, "obs": tr.E{"cur": [][]int{{}}, "blk": []tr.E{}}}, nil)
+		if x.err {
+			r.put(tr.E{"ev": "call", "a": x.rec, "r": tr.E{"err": true, "ms": []int{}}, "obs": quiet()}, nil)
+			continue
+		}
+		ms := membersOf(x.own)
+		r.put(tr.E{"ev": "call", "a": x.rec, "r": tr.E{"err": false, "ms": ms}, "obs": tr.E{"cur": [][]int{ms}, "blk": []tr.E{}}}, nil)
+	}
+	if panicked != nil {
+		r.flush()
+		r.w.Emit(tr.E{"ev": "panic", "a": panicked.rec, "msg": panicked.pmsg})
+		r.dead = true
+	}
+}
+
 func main() {
 	plans := flag.String("plans", "", "directory of TLC-generated plans")
 	out := flag.String("out", "codec.ndjson", "traces")
@@ -742,10 +1140,20 @@ func main() {
 	nrt := flag.Int("roundtrips", 30, "random round trips besides the boundary counts")
 	per := flag.Int("perlen", 2, "byte strings per length 0..130")
 	nblk := flag.Int("blocks", 40, "random block scenarios per kind besides the boundary integers")
+	nrace := flag.Int("race", 10, "concurrent read rounds")
+	cold := flag.Bool("cold", false, "only one concurrent read round, as the first use of the package in this process")
 	flag.Parse()
 	rng := rand.New(rand.NewSource(*seed))
 	w := tr.Create(*out)
 	r := &runner{w: w, rng: rng}
+
+	if *cold {
+		r.raceRound("cold", 8, 4)
+		r.flush()
+		w.Close()
+		fmt.Printf("events=%d\n", w.N())
+		return
+	}
 
 	if *plans != "" {
 		files, _ := filepath.Glob(filepath.Join(*plans, "*.ndjson"))
@@ -771,6 +1179,10 @@ func main() {
 		r.blockScenario("big", r.randBig(), "big")
 		r.blockScenario("tip", r.randTip(), "tip")
 	}
+	for i := 0; i < *nrace; i++ {
+		r.raceRound("race", 6, 5)
+	}
+	r.flush()
 	w.Close()
 	fmt.Printf("events=%d\n", w.N())
 }
